@@ -1,13 +1,28 @@
-"""C16 - a crash during an epoch update never loses the last or best checkpoint.
+"""C16 - a crash during an epoch update never loses the last or best checkpoint."""
+from contracts import C16_vc
+from vf.pyvc import api
 
-Bounded run-time contracts only so far (contracts/C16_rt.py: crash injection at every file-system
-mutating call); the deductive clauses of DESIGN.md section 3 (C16.order.cutpoints, C16.keep.exact)
-are added here when written.
-"""
-from contracts import C16_rt
+try:
+    from contracts import C16_rt
+except ImportError:
+    C16_rt = None
+CHECKERS = dict(C16_rt.CHECKERS) if C16_rt else {}
 
-CHECKERS = dict(C16_rt.CHECKERS)
+
+def _kf2(case, msg):
+    m = msg or ""
+    return ("paths=const" in m or "paths=model_unique_optim_const" in m) and ("/recovery_at_every_cut" in m or "/final_state" in m)
+
+
+KNOWN_MATCH = {"KF-C16-2": _kf2}
 
 
 def run(ctx):
-    C16_rt.run_bounded(ctx)
+    ctx.known_match.update(KNOWN_MATCH)
+    api.run_vcs(ctx, C16_vc.vcs(ctx) + C16_vc.finding_vcs(ctx), {
+        "C16.order.cutpoints": "update_for_epoch persistence part: after EVERY prefix of the file-system events of every path (incl. any subset of the clean-up) the last and best recorded epochs are loadable with their own parameters; exact-keep / keep-all re-established; refusal iff the best checkpoint would be overwritten"})
+    for a in C16_vc.c15.ASSUME:
+        ctx.assume(a)
+    if C16_rt:
+        C16_rt.run_bounded(ctx)
+    ctx.not_applicable.append("fault sequences other than one process death (torn writes inside torch.save, power loss without fsync, two crashes in a row): the ghost file system has atomic events")
